@@ -1,6 +1,13 @@
 package rules
 
 import (
+	"go/ast"
+	"go/token"
+	"go/types"
+	"reflect"
+	"sort"
+	"strings"
+
 	"verif/checker/eng"
 )
 
@@ -98,4 +105,146 @@ func attrGetNotUsed(c *cx, id string) {
 		n += len(f.Calls("internal/attr.Own")) + len(f.Calls("xmpp.getIDTyp"))
 	}
 	c.r.Floor(id, "own-attribute lookups in the library", n, 10)
+}
+
+// attrTagsDecodeOwnAttributes (C15.27): an encoding/xml field tag `name,attr`
+// without a namespace matches an attribute with that local name in ANY
+// namespace, the last one winning: decoded by tag alone, <data sid="nosuch"
+// x:sid="live" seq="0"> is a packet of the live stream (F131). Every struct
+// type of the package that is decoded from a peer's element and has such
+// fields decodes through its own UnmarshalXML, which hands encoding/xml a start
+// element that a filter function has reduced to the attributes with an empty
+// namespace (every append of an attribute in the filter lies behind the test
+// Name.Space == "").
+func attrTagsDecodeOwnAttributes(c *cx, id, rel string) int {
+	pk := c.p.Pkg(rel)
+	if pk == nil {
+		c.r.Unresolved(id, "package "+rel)
+		return 0
+	}
+	// decode targets of the package's functions
+	targets := map[*types.Named]bool{}
+	var add func(t types.Type)
+	add = func(t types.Type) {
+		if p, ok := t.(*types.Pointer); ok {
+			t = p.Elem()
+		}
+		nt, ok := t.(*types.Named)
+		if !ok || nt.Obj().Pkg() != pk.Types || targets[nt] {
+			return
+		}
+		st, ok := nt.Underlying().(*types.Struct)
+		if !ok {
+			return
+		}
+		targets[nt] = true
+		for i := 0; i < st.NumFields(); i++ {
+			add(st.Field(i).Type())
+		}
+	}
+	for _, f := range c.allFns() {
+		if f.Pkg != pk {
+			continue
+		}
+		for _, callee := range []string{"encoding/xml.Decoder.Decode", "encoding/xml.Decoder.DecodeElement"} {
+			for _, cl := range f.Calls(callee) {
+				if t := f.Info().TypeOf(cl.Args[0]); t != nil {
+					add(t)
+				}
+			}
+		}
+	}
+	n := 0
+	var names []string
+	for nt := range targets {
+		names = append(names, nt.Obj().Name())
+	}
+	sort.Strings(names)
+	for _, name := range names {
+		obj := pk.Types.Scope().Lookup(name)
+		if obj == nil {
+			continue // a type local to a function (the method-less twin an UnmarshalXML decodes into)
+		}
+		nt, isNamed := obj.Type().(*types.Named)
+		if !isNamed {
+			continue
+		}
+		st := nt.Underlying().(*types.Struct)
+		var blind []string
+		for i := 0; i < st.NumFields(); i++ {
+			tag := reflect.StructTag(st.Tag(i)).Get("xml")
+			parts := strings.Split(tag, ",")
+			isAttr := false
+			for _, p := range parts[1:] {
+				if p == "attr" {
+					isAttr = true
+				}
+			}
+			if isAttr && !strings.Contains(parts[0], " ") {
+				blind = append(blind, st.Field(i).Name())
+			}
+		}
+		if len(blind) == 0 {
+			continue
+		}
+		n++
+		um := c.p.Func(rel, "(*"+name+").UnmarshalXML")
+		if um == nil {
+			c.r.CheckNamed(id, rel+"."+name, "attribute fields "+strings.Join(blind, ", "), "P: a type with namespace-blind attribute tags decodes through its own UnmarshalXML", nt.Obj().Pos(), false, "no UnmarshalXML: x:"+strings.ToLower(blind[0])+" of a foreign namespace is decoded into "+blind[0])
+			continue
+		}
+		g := um.Graph()
+		okAll, why := true, ""
+		nd := 0
+		for _, cl := range um.Calls("encoding/xml.Decoder.DecodeElement") {
+			nd++
+			// the start element handed on is the result of a filter function
+			arg := ast.Unparen(cl.Args[1])
+			if u, ok := arg.(*ast.UnaryExpr); ok && u.Op == token.AND {
+				arg = ast.Unparen(u.X)
+			}
+			var filter *eng.Fn
+			if v := g.LocalVar(arg); v != nil {
+				// (the variable's address is taken for the call: look at its
+				// definitions directly; there must be exactly one, a call)
+				var defs []*eng.Def
+				for _, d := range g.DefsOf(v) {
+					if d.Kind == eng.DefPlain && d.RHS != nil {
+						defs = append(defs, d)
+					}
+				}
+				if len(defs) == 1 {
+					if fc, ok := ast.Unparen(defs[0].RHS).(*ast.CallExpr); ok {
+						if fo := calleeFunc(um, fc); fo != nil {
+							filter = c.p.FnOf(fo)
+						}
+					}
+				}
+			}
+			if filter == nil {
+				okAll, why = false, "the start element handed to DecodeElement is not the result of a filter function of the module"
+				continue
+			}
+			fg := filter.Graph()
+			na := 0
+			for _, ap := range filter.Calls("builtin.append") {
+				if t := filter.Info().TypeOf(ap); t == nil || eng.TypeStr(t) != "[]encoding/xml.Attr" {
+					continue
+				}
+				na++
+				pt, _ := fg.Where(ap)
+				if okd, _ := fg.DominatedAny(pt, []string{"eq(*.Name.Space,\"\")"}); !okd {
+					okAll, why = false, filter.Short+" keeps an attribute without testing that its namespace is empty"
+				}
+			}
+			if na == 0 {
+				okAll, why = false, filter.Short+" does not build an attribute list"
+			}
+		}
+		if nd == 0 {
+			okAll, why = false, "UnmarshalXML does not decode through DecodeElement with a filtered start element"
+		}
+		c.r.Check(id, um, "attribute fields "+strings.Join(blind, ", ")+" of "+name, "P: the element is decoded from its own (unqualified) attributes only", um.Pos(), okAll, why)
+	}
+	return n
 }
